@@ -291,7 +291,7 @@ func runC07(c *explore.Ctx) {
 		} else {
 			for _, o := range orders([]uint64{0, 1, 2, 3}, 3) {
 				if bad, _ := runDVSeq(seg, ls, []string{"zdv", "e000"}, o); bad != "" {
-					c.Violate("DV-LONG", 0, sigOf("C07", "long", bad), bad[:200], "DV-LONG")
+					c.Violate("DV-LONG", 0, sigOf("C07", "long", bad), bad, "DV-LONG")
 					break
 				}
 			}
